@@ -59,6 +59,8 @@ type gcScenario struct {
 	Closers    int
 	Gate       *gcGate
 	Yield      int
+	SameUUID   bool // every message carries the same UUID (a requeued or re-published copy): they are different messages all the same
+	SharedDec  bool // all decorated subscriptions go through ONE decorator object (per depth) instead of one of their own
 }
 
 type gcMarker struct{}
@@ -95,6 +97,7 @@ type gcRunner struct {
 	leakWg        sync.WaitGroup
 	gateEvDone    chan struct{} // closed when the call made by the gate event has returned (or the gate was not reached)
 	gateEvOnce    sync.Once
+	sharedDec     map[int]message.Subscriber
 }
 
 func gcMetaSnapshot(m *message.Message) string {
@@ -102,6 +105,14 @@ func gcMetaSnapshot(m *message.Message) string {
 }
 
 func (x *gcRunner) short(id string) string { return strings.TrimPrefix(id, x.prefix) }
+
+// mid is the harness' name of a message: taken from the UUID, or (scenarios in which all UUIDs are equal) from its metadata
+func (x *gcRunner) mid(m *message.Message) string {
+	if x.sc.SameUUID {
+		return m.Metadata.Get("k")
+	}
+	return x.short(m.UUID)
+}
 
 func (x *gcRunner) emit(e string, kv ...any) {
 	atomic.StoreInt64(&x.lastEv, time.Now().UnixNano())
@@ -115,16 +126,31 @@ func (x *gcRunner) chanClosed(name string) {
 	x.emit("chanclosed", "s", name)
 }
 
+// reuse: once Publish has returned, the message object is the publisher's again -- it overwrites it; what subscribers
+// receive (now or after a Nack) is what was handed to Publish
+func (x *gcRunner) reuse(mid string, msg *message.Message) {
+	msg.Payload = []byte("reused-by-the-publisher")
+	msg.Metadata.Set("k", "reused")
+	msg.Metadata.Set("later", "x")
+	x.mu.Lock()
+	x.snap[mid] = gcMetaSnapshot(msg)
+	x.mu.Unlock()
+}
+
 func (x *gcRunner) publish(pname, topic string, n int, batch bool) {
 	x.publishCtx(pname, topic, n, batch, false)
 }
 
 func (x *gcRunner) publishCtx(pname, topic string, n int, batch bool, deadCtx bool) {
 	var batchMsgs []*message.Message
+	var batchMids []string
 	for i := 0; i < n; i++ {
 		k := atomic.AddInt32(&x.mseq, 1)
 		mid := fmt.Sprintf("m%d", k)
 		msg := message.NewMessage(x.prefix+mid, []byte("payload-"+mid))
+		if x.sc.SameUUID {
+			msg.UUID = x.prefix + "same"
+		}
 		if deadCtx {
 			dctx, dcancel := context.WithCancel(context.Background())
 			dcancel()
@@ -138,6 +164,7 @@ func (x *gcRunner) publishCtx(pname, topic string, n int, batch bool, deadCtx bo
 		x.mu.Unlock()
 		if batch {
 			batchMsgs = append(batchMsgs, msg)
+			batchMids = append(batchMids, mid)
 			continue
 		}
 		pc := fmt.Sprintf("%s.%d", pname, atomic.AddInt32(&x.pseq, 1))
@@ -150,6 +177,7 @@ func (x *gcRunner) publishCtx(pname, topic string, n int, batch bool, deadCtx bo
 			return
 		}
 		x.emit("pubend", "p", pc, "ok", err == nil)
+		x.reuse(mid, msg)
 		if i == 0 && x.sc.Gate != nil && strings.HasPrefix(x.sc.Gate.ID, "m:") && pname != "g" {
 			// the call that the gate event made (e.g. a Subscribe) has returned before this publisher goes on:
 			// what it publishes next is then certainly owed to that subscription
@@ -160,10 +188,10 @@ func (x *gcRunner) publishCtx(pname, topic string, n int, batch bool, deadCtx bo
 		// one call with several messages: logged as one abstract publish per message, started together, ended together
 		var pcs []string
 		prev := ""
-		for _, msg := range batchMsgs {
+		for bi, msg := range batchMsgs {
 			pc := fmt.Sprintf("%s.%d", pname, atomic.AddInt32(&x.pseq, 1))
 			pcs = append(pcs, pc)
-			mid := x.short(msg.UUID)
+			mid := batchMids[bi]
 			x.noteStart(mid, topic)
 			x.emit("pubstart", "p", pc, "m", mid, "topic", topic, "payload", string(msg.Payload), "meta", map[string]string{"k": mid, "empty": ""}, "after", prev)
 			prev = pc
@@ -177,6 +205,9 @@ func (x *gcRunner) publishCtx(pname, topic string, n int, batch bool, deadCtx bo
 		for _, pc := range pcs {
 			x.emit("pubend", "p", pc, "ok", err == nil)
 		}
+		for bi, msg := range batchMsgs {
+			x.reuse(batchMids[bi], msg)
+		}
 	}
 }
 
@@ -186,14 +217,28 @@ func (x *gcRunner) subscribe(s gcSub) {
 	ctx = verifhook.WithName(ctx, x.prefix+s.Name)
 	cnt := new(int32)
 	var sub message.Subscriber = x.g
-	for i := 0; i < s.Decorators; i++ {
-		d, _ := message.MessageTransformSubscriberDecorator(func(m *message.Message) {})(sub)
-		sub = d
-	}
-	if s.Decorators > 0 {
+	if x.sc.SharedDec && s.Decorators > 0 {
 		x.mu.Lock()
-		x.decs = append(x.decs, sub)
+		if x.sharedDec[s.Decorators] == nil {
+			var sd message.Subscriber = x.g
+			for i := 0; i < s.Decorators; i++ {
+				sd, _ = message.MessageTransformSubscriberDecorator(func(m *message.Message) {})(sd)
+			}
+			x.sharedDec[s.Decorators] = sd
+			x.decs = append(x.decs, sd)
+		}
+		sub = x.sharedDec[s.Decorators]
 		x.mu.Unlock()
+	} else {
+		for i := 0; i < s.Decorators; i++ {
+			d, _ := message.MessageTransformSubscriberDecorator(func(m *message.Message) {})(sub)
+			sub = d
+		}
+		if s.Decorators > 0 {
+			x.mu.Lock()
+			x.decs = append(x.decs, sub)
+			x.mu.Unlock()
+		}
 	}
 	x.emit("substart", "s", s.Name, "topic", s.Topic, "neverack", s.Behav == "neverack" || s.StopReading)
 	x.mu.Lock()
@@ -235,7 +280,7 @@ func (x *gcRunner) consume(s gcSub, ch <-chan *message.Message, cnt *int32, canc
 	defer x.subsWg.Done()
 	nacks := map[string]int{}
 	for msg := range ch {
-		mid := x.short(msg.UUID)
+		mid := x.mid(msg)
 		x.mu.Lock()
 		fresh := !x.seen[msg]
 		x.seen[msg] = true
@@ -272,7 +317,7 @@ func (x *gcRunner) consume(s gcSub, ch <-chan *message.Message, cnt *int32, canc
 			select {
 			case m2, ok := <-ch:
 				if ok {
-					x.emit("recv", "s", s.Name, "m", x.short(m2.UUID), "payload", string(m2.Payload), "meta", map[string]string(m2.Metadata),
+					x.emit("recv", "s", s.Name, "m", x.mid(m2), "payload", string(m2.Payload), "meta", map[string]string(m2.Metadata),
 						"fresh", true, "ctxlive", true, "derived", true, "peeked", true)
 				} else {
 					x.emit("ack", "s", s.Name, "m", mid)
@@ -440,7 +485,7 @@ func (x *gcRunner) fire(ev string) {
 }
 
 func gcRun(r *tr.Run, sc gcScenario, rng *rand.Rand) (gateReached bool) {
-	x := &gcRunner{r: r, sc: sc, rng: rng, gateEvDone: make(chan struct{}), prefix: fmt.Sprintf("r%d-", r.ID), seen: map[*message.Message]bool{}, orig: map[string]*message.Message{},
+	x := &gcRunner{r: r, sc: sc, rng: rng, gateEvDone: make(chan struct{}), sharedDec: map[int]message.Subscriber{}, prefix: fmt.Sprintf("r%d-", r.ID), seen: map[*message.Message]bool{}, orig: map[string]*message.Message{},
 		snap: map[string]string{}, recvCnt: map[string]*int32{}, cancels: map[string]context.CancelFunc{}, closeReturned: make(chan struct{}),
 		subOK: map[string]int{}, innerClosed: map[string]bool{}, decClosed: map[string]int{},
 		expMin: map[string]map[string]bool{}, ackedBy: map[string]map[string]bool{}, subTopic: map[string]string{}, subLive: map[string]bool{}, pubTopic: map[string]string{}}
@@ -700,7 +745,16 @@ func (x *gcRunner) body() (gateReached bool) {
 	}
 	x.waitIdle(20*time.Millisecond, time.Second)
 	x.emit("quiesce", "origintact", intact)
-	// after Close: Publish and Subscribe must fail
+	// after Close: Publish and Subscribe must fail -- also a Publish call without messages
+	{
+		var err error
+		p, v := Guarded(func() { err = x.g.Publish("t1") })
+		if p {
+			x.emit("panic", "where", "Publish()", "val", v)
+		} else if err == nil {
+			x.emit("latepub0", "ok", true)
+		}
+	}
 	x.publish("late", "t1", 1, false)
 	x.subscribe(gcSub{Name: "late", Topic: "t1", Behav: "ack"})
 	x.closePubSub("again", false)
